@@ -557,6 +557,16 @@ Definition plain_NM (s : str) : bool :=
   | (ip, Some fp) => negb (nilb ip) && all_dig ip && no_lead0 ip && negb (nilb fp) && all_dig fp
   end.
 
+(* a plain decimal 0.000000d... (or zero with seven or more decimals): adjusted exponent below -6 *)
+Definition nm_small (s : str) : bool :=
+  let t := match s with c :: r => if is_c c_minus c then r else s | [] => s end in
+  match split_on (is_c c_dot) t with
+  | (ip, Some fp) =>
+      streqb ip [c_0] &&
+      (if nilb (lstrip0 fp) then 7 <=? length fp else 6 <=? length fp - length (lstrip0 fp))
+  | _ => false
+  end.
+
 (* ------------------------------------------------------------------ *)
 (* views used by the theorems                                           *)
 Definition accepts {A} (r : result A) : bool := is_ok r.
@@ -580,6 +590,13 @@ Definition fix_space_day (s : str) : str :=
   | y1 :: y2 :: y3 :: y4 :: m1 :: m2 :: sp :: r => y1 :: y2 :: y3 :: y4 :: m1 :: m2 :: c_0 :: r
   | _ => s
   end.
+
+(* a date-time whose date part has the blank-padded day *)
+Definition dtm_space_day (b : str) : bool :=
+  dt_space_day (take 8 b) && (nilb (drop 8 b) || spec_time (drop 8 b)).
+(* the date-time bodies the implementation takes *)
+Definition dtm_body_impl (b : str) : bool := spec_datetime b || dtm_space_day b.
+Definition fix_space_day_dtm (b : str) : str := fix_space_day (take 8 b) ++ drop 8 b.
 
 (* the value ends with an offset whose text also occurs earlier: str.replace removes every copy *)
 Definition offset_repeated (s : str) : bool :=
